@@ -68,6 +68,24 @@ fn distinct_code(k: usize) -> Tree {
     }
 }
 
+/// state shared with the NAME machinery: env 1 makes the top EXEC and CODE items bare names that are BOUND
+/// (a control instruction moves its operands as they are: it neither looks a name up nor consumes the quote
+/// flag), env 2 additionally has NAME.QUOTE pending
+fn shared_state_env(m: &mut M, env: usize) {
+    if env == 0 {
+        return;
+    }
+    m.bindings.insert("BOUNDX".into(), Tree::L(vec![Tree::I(1), Tree::I(2)]));
+    m.bindings.insert("BOUNDY".into(), Tree::I(7));
+    if !m.e.is_empty() {
+        m.e[0] = Tree::name("BOUNDX");
+    }
+    if !m.c.is_empty() {
+        m.c[0] = Tree::name("BOUNDY");
+    }
+    m.quote = env == 2;
+}
+
 pub fn step_family(ctx: &mut Ctx) {
     let mut real = Real::new();
     let names = ["EXEC.IF", "CODE.IF", "EXEC.K", "EXEC.S", "EXEC.Y", "CODE.DO", "CODE.DO*", "CODE.QUOTE", "EXEC.DUP", "EXEC.POP", "EXEC.SWAP", "EXEC.ROT", "EXEC.FLUSH"];
@@ -86,6 +104,9 @@ pub fn step_family(ctx: &mut Ctx) {
                     m0.x = x.clone();
                     m0.iv = iv.clone();
                     m0.i = vec![3];
+                    for env in 0..3 {
+                    let mut m0 = m0.clone();
+                    shared_state_env(&mut m0, env);
                     for name in loop_names.iter() {
                         let id = match ctx.take() {
                             Some(id) => id,
@@ -103,6 +124,7 @@ pub fn step_family(ctx: &mut Ctx) {
                         }
                         ctx.record(id, &okey, v, || format!("{} state {{{}}}", name, m0.key()));
                     }
+                    }
                 }
             }
         }
@@ -114,6 +136,9 @@ pub fn step_family(ctx: &mut Ctx) {
                 m0.e = (0..ed).map(distinct_code).collect();
                 m0.c = (0..cd).map(|k| distinct_code(k + 10)).collect();
                 m0.b = b.clone();
+                for env in 0..3 {
+                let mut m0 = m0.clone();
+                shared_state_env(&mut m0, env);
                 for name in names.iter() {
                     let id = match ctx.take() {
                         Some(id) => id,
@@ -130,6 +155,7 @@ pub fn step_family(ctx: &mut Ctx) {
                         }
                     }
                     ctx.record(id, &okey, v, || format!("{} state {{{}}}", name, m0.key()));
+                }
                 }
                 // list unpacking: a list on top of EXEC is replaced by its elements, first element on top;
                 // literal dispatch: every kind of literal goes to the stack of its type, an unknown
